@@ -1,11 +1,11 @@
 package main
 
 import (
-	"io"
 	"bytes"
 	"encoding/json"
 	"errors"
 	"fmt"
+	"io"
 	"unicode/utf8"
 
 	redact "github.com/cockroachdb/redact"
